@@ -246,6 +246,15 @@ def main(argv=None):
         conc = run_concrete(pid, a.repo, a.tier, seed, cexfile)
     cres = conc.get("results", [])
     cfail = [r for r in cres if not r.get("ok")]
+    # audit of the assumed path theory against pathlib (every run; a failure
+    # voids the proofs that use the theory: checker error, not a violation)
+    theory_fail = None
+    if any("A-SYMLINK" in (P.get("assumptions") or []) for _ in [0]):
+        from . import audit_axioms
+        ta = audit_axioms.audit_paths()
+        cres = cres + [ta]
+        if not ta["ok"]:
+            theory_fail = ta
     known_hits = []
     new_fail = []
     for r in cfail:
@@ -317,6 +326,9 @@ def main(argv=None):
         err_msgs.append("CHECKER-ERROR zero obligations generated")
     if conc.get("error"):
         err_msgs.append(f"CHECKER-ERROR {conc['error']}")
+    if theory_fail:
+        err_msgs.append("CHECKER-ERROR path theory axiom refuted by pathlib: "
+                        + str(theory_fail.get("witness"))[:400])
 
     for ln in lines + und_msgs + err_msgs:
         print(ln)
